@@ -65,9 +65,14 @@ def run(ctx):
             # design: verify C+1 signatures against distinct keys -> the property is an invariant
             dcfg = sc.hdr_cfg(N, C, C + 1, C + 1, 0, False, "ledger", maxbk, maxsigs, "LedgerSound", False, outs=1 if maxbk <= 4 else 0)
             ccfg = sc.hdr_cfg(N, C, sv, md, 0, False, "ledger", maxbk, maxsigs, "LedgerSoundUpTo", True, outs=1 if maxbk <= 4 else 0)
-            d, (r, rows) = sc.parallel(
-                lambda: sc.run_tlc_plain(ctx, "SigHeader_MC", "d" + name, "design N=%d: LedgerSound" % N, files={"d" + name: dcfg}),
-                lambda: sc.run_tlc_rows(ctx, "SigHeader_MC", name, files={name: ccfg}))
+            if sv >= C + 1 and md >= C + 1:
+                # the probed constants are (at least) the design's: LedgerSound itself is the invariant of the model of the tree
+                ccfg = sc.hdr_cfg(N, C, sv, md, 0, False, "ledger", maxbk, maxsigs, "LedgerSound", True, outs=1 if maxbk <= 4 else 0)
+                r, rows = sc.run_tlc_rows(ctx, "SigHeader_MC", name, files={name: ccfg})
+            else:
+                d, (r, rows) = sc.parallel(
+                    lambda: sc.run_tlc_plain(ctx, "SigHeader_MC", "d" + name, "design N=%d: LedgerSound" % N, files={"d" + name: dcfg}),
+                    lambda: sc.run_tlc_rows(ctx, "SigHeader_MC", name, files={name: ccfg}))
             if not r:
                 continue
             H = sc.hdr_rows(rows)
@@ -116,6 +121,12 @@ def run(ctx):
                                          "addblock_rejected_refused": tail["addBlockRejectedRefused"], "addblock_accepted": tail["addBlockAccepted"][:60]}
             ctx.log("N=%d: %d rows on AddHeaders, %d accepted, %d against the property (TLC candidates %d)" % (N, len(obs), acc, uns, c))
             ctx.samples.append({"N": N, "header": sc.hdr_str(H[len(H) // 2]), "model_accepts": H[len(H) // 2]["acc"], "property_allows": H[len(H) // 2]["ok"]})
+    # stateful part: which peer set a header is verified against over multi-step histories (spec/SigEpoch.tla)
+    ep = sc.epoch_phase(ctx, binary, "ledger", "SigEpoch_C32.cfg", "TestVerifSigEpochLedger", {"n": 4, "c": 1, "keys": 8},
+                        design_cfg="SigEpoch_C32d.cfg") if binary else None
+    if ep:
+        nexec += ep[0]
+        per["epoch histories"] = {"histories": ep[0], "steps": ep[1], "unsound_accepts": ep[2]}
     ctx.finish("model_checking", {
         "states": ctx.stats["states"], "transitions": ctx.stats["transitions"],
         "traces_validated_against_impl": nexec, "accepted_by_real_code": nacc, "unsound_accepts_on_real_code": nunsound,
@@ -123,4 +134,5 @@ def run(ctx):
     }, ["ideal cryptography", "real LedgerStoreImp initialised from a real VBFT genesis block (genesis.BuildGenesisBlock) whose N peers' keys the harness owns; headers of height 1",
         "headers enumerated up to renaming of members (members listed in order of first occurrence); signatures by listed members, one unlisted member, an outsider, garbage, stale",
         "thresholds (signatures verified, distinct listed members) are probed from the tree and fed to TLC as constants",
+        "stateful part (SigEpoch): all histories of 3 AddHeader/AddBlock steps over config-change headers, LastConfigBlockNum in {0,1}, members/outsiders as signers; in-memory header state reset between histories",
         "a valid signature counts for the property whether or not its signer is listed as bookkeeper (the weaker reading)"])
